@@ -76,8 +76,8 @@ def check_pair(case: dict):
         dtype_b = mut["dtype"]
     else:
         raise ValueError(op)
-    a = _build(ka, g, sol)
-    b = a if same_obj else _build(kb, gb, solb, dtype=dtype_b, meta=meta_b)
+    a = call(f"C09:{ka}:construct-valid", _build, ka, g, sol)
+    b = a if same_obj else call(f"C09:{kb}:construct-valid", _build, kb, gb, solb, dtype=dtype_b, meta=meta_b)
     want = _struct(ka, g, sol) == _struct(kb, gb, solb)
     sig = f"C09:{ka}" if ka == kb else f"C09:{ka}-vs-{kb}"
     for nm, fn, exp in (("eq", lambda: a == b, want), ("eq-rev", lambda: b == a, want), ("ne", lambda: a != b, not want)):
